@@ -101,23 +101,25 @@ structure RawSym where
 
 def fld (e : Enc) (rec : Bytes) (off w : Nat) : Nat := rdField e (slice rec off w)
 
-/-- read the members of `*pSym` (`rec` = the `sizeof(T)` bytes at `pSym`) -/
+/-- read the members of `*pSym` (`rec` = the `sizeof(T)` bytes at `pSym`): the field after `convertor`
+    (`rdField`) goes through the *generated* conversion to the type of the out-parameter / argument
+    (`symNN_get_value` … : zero extension of the 32-bit members of `Elf32_Sym`) -/
 def decodeRaw (c : Cfg) (rec : Bytes) : RawSym :=
   match c.cls with
   | .c32 =>
-    { name := BitVec.ofNat 32 (fld c.enc rec Elf32_Sym.st_name_off Elf32_Sym.st_name_w)
-      value := BitVec.ofNat 64 (fld c.enc rec Elf32_Sym.st_value_off Elf32_Sym.st_value_w)
-      size := BitVec.ofNat 64 (fld c.enc rec Elf32_Sym.st_size_off Elf32_Sym.st_size_w)
+    { name := sym32_get_name_idx (BitVec.ofNat 32 (fld c.enc rec Elf32_Sym.st_name_off Elf32_Sym.st_name_w))
+      value := sym32_get_value (BitVec.ofNat 32 (fld c.enc rec Elf32_Sym.st_value_off Elf32_Sym.st_value_w))
+      size := sym32_get_size (BitVec.ofNat 32 (fld c.enc rec Elf32_Sym.st_size_off Elf32_Sym.st_size_w))
       info := BitVec.ofNat 8 (fld c.enc rec Elf32_Sym.st_info_off Elf32_Sym.st_info_w)
-      other := BitVec.ofNat 8 (fld c.enc rec Elf32_Sym.st_other_off Elf32_Sym.st_other_w)
-      shndx := BitVec.ofNat 16 (fld c.enc rec Elf32_Sym.st_shndx_off Elf32_Sym.st_shndx_w) }
+      other := sym32_get_other (BitVec.ofNat 8 (fld c.enc rec Elf32_Sym.st_other_off Elf32_Sym.st_other_w))
+      shndx := sym32_get_shndx (BitVec.ofNat 16 (fld c.enc rec Elf32_Sym.st_shndx_off Elf32_Sym.st_shndx_w)) }
   | .c64 =>
-    { name := BitVec.ofNat 32 (fld c.enc rec Elf64_Sym.st_name_off Elf64_Sym.st_name_w)
-      value := BitVec.ofNat 64 (fld c.enc rec Elf64_Sym.st_value_off Elf64_Sym.st_value_w)
-      size := BitVec.ofNat 64 (fld c.enc rec Elf64_Sym.st_size_off Elf64_Sym.st_size_w)
+    { name := sym64_get_name_idx (BitVec.ofNat 32 (fld c.enc rec Elf64_Sym.st_name_off Elf64_Sym.st_name_w))
+      value := sym64_get_value (BitVec.ofNat 64 (fld c.enc rec Elf64_Sym.st_value_off Elf64_Sym.st_value_w))
+      size := sym64_get_size (BitVec.ofNat 64 (fld c.enc rec Elf64_Sym.st_size_off Elf64_Sym.st_size_w))
       info := BitVec.ofNat 8 (fld c.enc rec Elf64_Sym.st_info_off Elf64_Sym.st_info_w)
-      other := BitVec.ofNat 8 (fld c.enc rec Elf64_Sym.st_other_off Elf64_Sym.st_other_w)
-      shndx := BitVec.ofNat 16 (fld c.enc rec Elf64_Sym.st_shndx_off Elf64_Sym.st_shndx_w) }
+      other := sym64_get_other (BitVec.ofNat 8 (fld c.enc rec Elf64_Sym.st_other_off Elf64_Sym.st_other_w))
+      shndx := sym64_get_shndx (BitVec.ofNat 16 (fld c.enc rec Elf64_Sym.st_shndx_off Elf64_Sym.st_shndx_w)) }
 
 /-- `T entry; entry.FIELD = convertor(FIELD)…` : the bytes of the host struct -/
 def entryBytes (c : Cfg) (name : BitVec 32) (value size : BitVec 64) (info other : BitVec 8)
@@ -170,26 +172,41 @@ def getSymbol (t : SymTab) (index : BitVec 64) (str : Bytes) (a : Attrs) : M (Bo
     (rdRange "get_symbol/pSym" data off.toNat (symSizeOf t.cfg.cls)) >>= fun rec =>
     let r := decodeRaw t.cfg rec
     (getString t.str r.name) >>= fun pStr =>
-    pure (true, pStr.getD str, t.attrsOf r)
+    let nameOk := if t.c32 then sym32_get_name_ok pStr.isNone else sym64_get_name_ok pStr.isNone
+    pure (true, if nameOk then pStr.getD str else str, t.attrsOf r)
   else pure (false, str, a)
 
 /-! ### adding -/
 
-/-- `generic_add_symbol<T>` -/
-def genericAddSymbol (t : SymTab) (name : BitVec 32) (value size : BitVec 64) (info other : BitVec 8)
+/-- `elf_file.get_class()` as the byte the generated class tests compare with -/
+def clsByte (c : Cls) : BitVec 8 :=
+  match c with
+  | .c32 => BitVec.ofNat 8 ELFCLASS32
+  | .c64 => BitVec.ofNat 8 ELFCLASS64
+
+/-- `generic_add_symbol<T>` with `T = Elf32_Sym` iff `is32` (the outcome of the caller's
+    `elf_file.get_class() == ELFCLASS32`); the convertor is that of the file -/
+def genericAddSymbolT (is32 : Bool) (t : SymTab) (name : BitVec 32) (value size : BitVec 64) (info other : BitVec 8)
     (shndx : BitVec 16) : M (SymTab × BitVec 32) :=
-  let e := entryBytes t.cfg name value size info other shndx
-  let len := if t.c32 then sym32_add_len else sym64_add_len
+  let e := entryBytes ⟨if is32 then .c32 else .c64, t.cfg.enc⟩ name value size info other shndx
+  let len := if is32 then sym32_add_len else sym64_add_len
   (rdRange "add_symbol/entry" (some e) 0 len.toNat) >>= fun src =>
   (t.sym.appendData src) >>= fun s =>
-  pure ({ t with sym := s }, if t.c32 then sym32_add_ret s.size else sym64_add_ret s.size)
+  pure ({ t with sym := s }, if is32 then sym32_add_ret s.size else sym64_add_ret s.size)
 
-/-- `add_symbol(name, value, size, info, other, shndx)` : seeds the null symbol first -/
+/-- `generic_add_symbol<T>` for the `T` of the file's class -/
+def genericAddSymbol (t : SymTab) (name : BitVec 32) (value size : BitVec 64) (info other : BitVec 8)
+    (shndx : BitVec 16) : M (SymTab × BitVec 32) :=
+  genericAddSymbolT t.c32 t name value size info other shndx
+
+/-- `add_symbol(name, value, size, info, other, shndx)` : seeds the null symbol first; both calls of
+    `generic_add_symbol<T>` choose `T` by their own (generated) class test -/
 def addSymbol (t : SymTab) (name : BitVec 32) (value size : BitVec 64) (info other : BitVec 8)
     (shndx : BitVec 16) : M (SymTab × BitVec 32) :=
-  (if sym_add_seed_cond t.sym.size then (t.genericAddSymbol 0 0 0 0 0 0) >>= fun (t', _) => pure t'
+  (if sym_add_seed_cond t.sym.size then
+     (genericAddSymbolT (sym_add_seed_is32 (clsByte t.cfg.cls)) t 0 0 0 0 0 0) >>= fun (t', _) => pure t'
    else pure t) >>= fun t1 =>
-  t1.genericAddSymbol name value size info other shndx
+  genericAddSymbolT (sym_add_is32 (clsByte t1.cfg.cls)) t1 name value size info other shndx
 
 /-- `add_symbol(name, value, size, bind, type, other, shndx)` -/
 def addSymbolBT (t : SymTab) (name : BitVec 32) (value size : BitVec 64) (bind typ other : BitVec 8)
@@ -226,7 +243,7 @@ def sysvLoop (t : SymTab) (data : Option Bytes) (name : Bytes) (nbucket nchain :
       | 0 => throw (.fuel "hash_lookup")
       | k + 1 =>
         (rd32 "hash_lookup/chain" t.cfg.enc data (sysv_chain_off nbucket y).toNat) >>= fun y' =>
-        (t.getSymbol (y'.setWidth 64) str a) >>= fun r =>
+        (t.getSymbol (sysv_sym_index_walk y') str a) >>= fun r =>
         sysvLoop t data name nbucket nchain k y' r.2.1 r.2.2
     else pure (str, a)
 
@@ -235,13 +252,13 @@ def sysvLoop (t : SymTab) (data : Option Bytes) (name : Bytes) (nbucket nchain :
     `y < nchain`), which the model reports as `Fault.fuel`. -/
 def hashLookup (t : SymTab) (h : SecBuf) (name : Bytes) (a : Attrs) : M (Bool × Attrs) :=
   let data := secData h
-  (rd32 "hash_lookup/nbucket" t.cfg.enc data 0) >>= fun nbucket =>
+  (rd32 "hash_lookup/nbucket" t.cfg.enc data sysv_nbucket_off.toNat) >>= fun nbucket =>
   (rd32 "hash_lookup/nchain" t.cfg.enc data sysv_nchain_off.toNat) >>= fun nchain =>
   let val := elf_hash (cName name)
   if nbucket = 0 then throw (.divZero "hash_lookup/nbucket") else
   (rd32 "hash_lookup/bucket" t.cfg.enc data (sysv_bucket_off val nbucket).toNat) >>= fun y =>
-  (t.getSymbol (y.setWidth 64) [] a) >>= fun r =>
-  if !r.1 then pure (false, a) else     -- fix 09-hash-lookup-empty-name: no symbol at the bucket head
+  (t.getSymbol (sysv_sym_index y) [] a) >>= fun r =>
+  if sysv_head_missing r.1 then pure (false, a) else     -- fix 09-hash-lookup-empty-name: no symbol at the bucket head
   (sysvLoop t data name nbucket nchain (nchain.toNat + 1) y r.2.1 r.2.2) >>= fun st =>
   pure (st.1 == name, st.2)
 
@@ -253,10 +270,12 @@ def gnuLoop (t : SymTab) (data : Option Bytes) (name : Bytes) (hash symoffset : 
     let hm := if t.c32 then gnu32_hash_match ch hash else gnu64_hash_match ch hash
     (if hm then t.getSymbol (if t.c32 then gnu32_sym_index ci symoffset else gnu64_sym_index ci symoffset) sn a
      else pure (false, sn, a)) >>= fun r =>
-    if hm && r.1 && (name == r.2.1) then pure (true, r.2.2) else
+    if (if t.c32 then gnu32_name_match_gate ch hash r.1 (name == r.2.1)
+        else gnu64_name_match_gate ch hash r.1 (name == r.2.1)) then pure (true, r.2.2) else
     if (if t.c32 then gnu32_chain_end ch else gnu64_chain_end ch) then pure (false, r.2.2) else
-    let ci' := ci + 1
-    (rd32 "gnu_hash_lookup/chain" t.cfg.enc data (chainsBase + ci'.toNat * 4)) >>= fun ch' =>
+    let ci' := if t.c32 then gnu32_chain_next ci else gnu64_chain_next ci
+    (rd32 "gnu_hash_lookup/chain" t.cfg.enc data
+      (chainsBase + (if t.c32 then gnu32_chain_elem_off_walk ci' else gnu64_chain_elem_off_walk ci').toNat)) >>= fun ch' =>
     gnuLoop t data name hash symoffset chainsBase k ci' ch' r.2.1 r.2.2
 
 /-- `gnu_hash_lookup<T>` (`T = uint32_t` for ELF32, `uint64_t` for ELF64).  The chain walk only
@@ -264,30 +283,32 @@ def gnuLoop (t : SymTab) (data : Option Bytes) (name : Bytes) (hash symoffset : 
 def gnuLookup (t : SymTab) (h : SecBuf) (name : Bytes) (a : Attrs) : M (Bool × Attrs) :=
   let data := secData h
   let e := t.cfg.enc
-  (rd32 "gnu_hash_lookup/nbuckets" e data 0) >>= fun nbuckets =>
-  (rd32 "gnu_hash_lookup/symoffset" e data 4) >>= fun symoffset =>
-  (rd32 "gnu_hash_lookup/bloom_size" e data 8) >>= fun bloomSize =>
-  (rd32 "gnu_hash_lookup/bloom_shift" e data 12) >>= fun bloomShift =>
+  (rd32 "gnu_hash_lookup/nbuckets" e data (if t.c32 then gnu32_nbuckets_off else gnu64_nbuckets_off).toNat) >>= fun nbuckets =>
+  (rd32 "gnu_hash_lookup/symoffset" e data (if t.c32 then gnu32_symoffset_off else gnu64_symoffset_off).toNat) >>= fun symoffset =>
+  (rd32 "gnu_hash_lookup/bloom_size" e data (if t.c32 then gnu32_bloom_size_off else gnu64_bloom_size_off).toNat) >>= fun bloomSize =>
+  (rd32 "gnu_hash_lookup/bloom_shift" e data (if t.c32 then gnu32_bloom_shift_off else gnu64_bloom_shift_off).toNat) >>= fun bloomShift =>
   let hash := elf_gnu_hash (cName name)
   if bloomSize = 0 then throw (.divZero "gnu_hash_lookup/bloom_size") else
   let bloomBase := (if t.c32 then gnu32_bloom_off else gnu64_bloom_off).toNat
   (if t.c32 then
-     (rd32 "gnu_hash_lookup/bloom" e data (bloomBase + (gnu32_bloom_index hash bloomSize).toNat * 4)) >>= fun w =>
+     (rd32 "gnu_hash_lookup/bloom" e data (bloomBase + (gnu32_bloom_elem_off (gnu32_bloom_index hash bloomSize)).toNat)) >>= fun w =>
      let bits := gnu32_bloom_bits hash bloomShift
-     pure ((w &&& bits) == bits)
+     pure (!(gnu32_bloom_miss w bits))
    else
-     (rd64 "gnu_hash_lookup/bloom" e data (bloomBase + (gnu64_bloom_index hash bloomSize).toNat * 8)) >>= fun w =>
+     (rd64 "gnu_hash_lookup/bloom" e data (bloomBase + (gnu64_bloom_elem_off (gnu64_bloom_index hash bloomSize)).toNat)) >>= fun w =>
      let bits := gnu64_bloom_bits hash bloomShift
-     pure ((w &&& bits) == bits)) >>= fun pass =>
+     pure (!(gnu64_bloom_miss w bits))) >>= fun pass =>
   if !pass then pure (false, a) else
   if nbuckets = 0 then throw (.divZero "gnu_hash_lookup/nbuckets") else
   let bucket := if t.c32 then gnu32_bucket hash nbuckets else gnu64_bucket hash nbuckets
   let bucketsBase := bloomBase + (if t.c32 then gnu32_buckets_off bloomSize else gnu64_buckets_off bloomSize).toNat
   let chainsBase := bucketsBase + (if t.c32 then gnu32_chains_off nbuckets else gnu64_chains_off nbuckets).toNat
-  (rd32 "gnu_hash_lookup/bucket" e data (bucketsBase + bucket.toNat * 4)) >>= fun bv =>
-  if BitVec.ule symoffset bv then
-    let ci := bv - symoffset
-    (rd32 "gnu_hash_lookup/chain" e data (chainsBase + ci.toNat * 4)) >>= fun ch =>
+  (rd32 "gnu_hash_lookup/bucket" e data
+    (bucketsBase + (if t.c32 then gnu32_bucket_elem_off bucket else gnu64_bucket_elem_off bucket).toNat)) >>= fun bv =>
+  if (if t.c32 then gnu32_bucket_ok bv symoffset else gnu64_bucket_ok bv symoffset) then
+    let ci := if t.c32 then gnu32_chain_start bv symoffset else gnu64_chain_start bv symoffset
+    (rd32 "gnu_hash_lookup/chain" e data
+      (chainsBase + (if t.c32 then gnu32_chain_elem_off ci else gnu64_chain_elem_off ci).toNat)) >>= fun ch =>
     gnuLoop t data name hash symoffset chainsBase ((data.getD []).length + 1) ci ch [] a
   else pure (false, a)
 
@@ -296,8 +317,8 @@ def hashPhase (t : SymTab) (name : Bytes) (a : Attrs) : M (Bool × Attrs) :=
   match t.hash with
   | none => pure (false, a)
   | some h =>
-    (if h.stype == BitVec.ofNat 32 SHT_HASH then t.hashLookup h name a else pure (false, a)) >>= fun r1 =>
-    if h.stype == BitVec.ofNat 32 SHT_GNU_HASH || h.stype == BitVec.ofNat 32 DT_GNU_HASH then
+    (if sym_byname_is_sysv h.stype then t.hashLookup h name a else pure (false, a)) >>= fun r1 =>
+    if sym_byname_is_gnu h.stype then
       t.gnuLookup h name r1.2
     else pure r1
 
@@ -312,8 +333,9 @@ def linearGo (t : SymTab) (name : Bytes) : Nat → BitVec 64 → Attrs → M (Bo
 /-- `get_symbol(name, value, size, bind, type, section_index, other)` -/
 def getByName (t : SymTab) (name : Bytes) (a : Attrs) : M (Bool × Attrs) :=
   (t.hashPhase name a) >>= fun r =>
-  if r.1 then pure r else
-  t.symbolsNum >>= fun n => linearGo t name n.toNat 0 r.2
+  if sym_byname_linear r.1 then
+    t.symbolsNum >>= fun n => linearGo t name n.toNat 0 r.2
+  else pure r
 
 /-! ### lookup by value -/
 
